@@ -197,6 +197,42 @@ def slot_obligations(record):
     return problems
 
 
+def owned_call_problems(record):
+    """call sites `<class expression>.__mashumaro_*__(...)` / `cls.__mashumaro_*__(...)` inside a generated
+    function: the named unit must be defined on that very class (vars(K)), not inherited from an ancestor for
+    which it was compiled - each class is (de)serialized by code compiled for its own fields.  Evaluated after
+    the first calls (lazy slots are filled)."""
+    problems = []
+    b = record.builder
+    if b is None:
+        return problems
+    try:
+        mod = ast.parse(record.text)
+    except SyntaxError:
+        return problems
+    g = dict(record.globals or {})
+    for fn in [n for n in mod.body if isinstance(n, ast.FunctionDef)]:
+        for c in ast.walk(fn):
+            if not (isinstance(c, ast.Call) and isinstance(c.func, ast.Attribute) and c.func.attr.startswith("__mashumaro_") and c.func.attr.endswith("__")):
+                continue
+            recv = c.func.value
+            if isinstance(recv, ast.Name) and recv.id in ("cls", "_cls"):
+                klass = b.cls
+            else:
+                try:
+                    klass = eval(compile(ast.Expression(recv), "<recv>", "eval"), g)
+                except Exception:
+                    continue  # an instance expression (dynamic dispatch) or a local
+            if not isinstance(klass, type):
+                continue
+            name = c.func.attr
+            if name not in vars(klass):
+                owner = next((k for k in klass.__mro__ if name in vars(k)), None)
+                if owner is not None:
+                    problems.append(f"{fn.name}: {ast.unparse(c.func)} resolves to the unit compiled for {owner.__name__}, {klass.__name__} owns none")
+    return problems
+
+
 # ---------------------------------------------------------------------------------------------
 # closedness (C17): every name and dotted reference in a generated text resolves, on all paths
 # ---------------------------------------------------------------------------------------------
